@@ -1,12 +1,173 @@
 (** Property C06 — the container TOC and the attached metadata objects stay in exact
     one-to-one sync.  This file holds only the property theorems; each is closed by [exact]
-    of a lemma proved in [Toc/SyncProofs.v] and followed by [Print Assumptions]. *)
+    of a lemma proved in [Toc/SyncProofs.v] and followed by [Print Assumptions].
+
+    [env_ok E] (a premise, checked by the harness for the environment it registers): schema
+    entry-point names contain no ["="], are not reserved, parent paths are duplicate-free,
+    end in the schema itself and are prefix-closed. *)
 From Coq Require Import List String Bool NArith.
 From MV Require Import Base.Sx Toc.Layout Toc.UserView Toc.Sync Toc.SyncProofs.
 Import ListNotations.
 Local Open Scope string_scope.
+Local Open Scope list_scope.
+
+(** *** Initial state *)
 
 (** A freshly initialised container is in sync, in every environment. *)
 Theorem C06_sync_init : forall E, Sync E init_ss.
 Proof. exact sync_init. Qed.
 Print Assumptions C06_sync_init.
+
+(** *** One operation
+
+    Full statement demanded:
+      [forall E st o, env_ok E = true -> Sync E st -> Sync E (fst (s_step E st o))].
+    Proved below: (1) for every operation except a *successful* delete / move / copy
+    ([C06_sync_step_partial] + [C06_sync_step_refused]); (2) for those three, reduced to the
+    file part [RawStep] -- the in-memory index part and the framing are proved
+    ([C06_sync_step_given_file]); [RawStep] itself is discharged per history by the verified
+    checker ([C06_checker_sound], see [C06_example_heavy]) and is what the harness evaluates
+    ([syncb]) after every model step.  Missing: the closed-form proof that the unlink /
+    relink / re-uuid folds of [c_delete], [c_move], [c_copy] re-establish [SyncRaw]. *)
+
+(** attach (incl. every refusal: read-only, reserved path, missing node, duplicate, unknown or
+    auxiliary schema, invalid value, failing export), detach, create/require group and dataset,
+    [g[p] = v], attributes, lookups, reopen, patch boundary. *)
+Theorem C06_sync_step_partial : forall E st o,
+  env_ok E = true -> Sync E st -> is_heavy o = false -> Sync E (fst (s_step E st o)).
+Proof. exact sync_step_light. Qed.
+Print Assumptions C06_sync_step_partial.
+
+(** Every refused operation (any kind, incl. delete / move / copy) keeps the state in sync
+    and leaves the raw tree untouched. *)
+Theorem C06_sync_step_refused : forall E st o,
+  env_ok E = true -> Sync E st -> refused (snd (s_step E st o)) = true ->
+  Sync E (fst (s_step E st o)) /\ raw (cs (fst (s_step E st o))) = raw (cs st).
+Proof. exact sync_step_refused. Qed.
+Print Assumptions C06_sync_step_refused.
+
+(** Delete, move, copy: once the file part is in sync, the whole state is (the incrementally
+    maintained index follows every added and removed link). *)
+Theorem C06_sync_step_given_file : forall E st co,
+  env_ok E = true -> Sync E st -> is_heavy (SOp co) = true -> RawStep E st co ->
+  Sync E (fst (s_step E st (SOp co))).
+Proof. exact sync_step_heavy. Qed.
+Print Assumptions C06_sync_step_given_file.
+
+(** The executable checker of the file part is sound. *)
+Theorem C06_checker_sound : forall E T n pr, syncb_raw E T n pr = true -> SyncRaw E T n pr.
+Proof. exact syncb_raw_sound. Qed.
+Print Assumptions C06_checker_sound.
+
+(** *** Histories *)
+
+(** Every state reached by a history is in sync; delete / move / copy steps carry the file
+    part as a premise ([raw_steps_ok] is [True] for all other operations). *)
+Theorem C06_all_reachable_partial : forall E ops st,
+  env_ok E = true -> Sync E st -> raw_steps_ok E st ops -> Sync E (s_run E st ops).
+Proof. exact sync_run. Qed.
+Print Assumptions C06_all_reachable_partial.
+
+Theorem C06_all_reachable_light : forall E ops,
+  env_ok E = true -> forallb (fun o => negb (is_heavy o)) ops = true ->
+  Sync E (s_run E init_ss ops).
+Proof. exact sync_run_light. Qed.
+Print Assumptions C06_all_reachable_light.
+
+(** *** Reopening: the index rebuilt from disk is the one maintained incrementally
+    (extensionally, as Python compares dicts and sets). *)
+Theorem C06_reopen_same : forall E st,
+  env_ok E = true -> Sync E st -> ix_same (load E (raw (cs st))) (mem st).
+Proof. exact reopen_same. Qed.
+Print Assumptions C06_reopen_same.
+
+(** *** What [Sync] means (links <-> objects is a bijection with equal uuid and schema, uuids
+    are unique, schema / package records exactly for the schemas in use, no empty groups) *)
+
+Theorem C06_object_has_link : forall E st, Sync E st -> forall q,
+  In q (objs (raw (cs st))) ->
+  exists a, t_get (raw (cs st)) (link_path (sch q) (uid q)) = Some (mkobj (KData (name_of q)) a).
+Proof. exact ch_obj_link. Qed.
+Print Assumptions C06_object_has_link.
+
+Theorem C06_link_has_object : forall E st, Sync E st -> forall s u,
+  t_has (raw (cs st)) (link_path s u) = true ->
+  exists q a, In q (objs (raw (cs st))) /\ sch q = s /\ uid q = u /\
+              t_get (raw (cs st)) (link_path s u) = Some (mkobj (KData (name_of q)) a).
+Proof. exact ch_link_obj. Qed.
+Print Assumptions C06_link_has_object.
+
+Theorem C06_uuid_unique : forall E st, Sync E st -> forall q1 q2,
+  In q1 (objs (raw (cs st))) -> In q2 (objs (raw (cs st))) -> uid q1 = uid q2 -> q1 = q2.
+Proof. exact ch_uuid_unique. Qed.
+Print Assumptions C06_uuid_unique.
+
+Theorem C06_schema_record_iff_used : forall E st, Sync E st -> forall s,
+  t_has (raw (cs st)) (schema_path s) = true <-> exists q, In q (objs (raw (cs st))) /\ sch q = s.
+Proof. exact ch_schema. Qed.
+Print Assumptions C06_schema_record_iff_used.
+
+Theorem C06_schema_record_complete : forall E st, Sync E st -> forall s,
+  t_has (raw (cs st)) (schema_path s) = true ->
+  t_has (raw (cs st)) (schema_path s ++ ["jsonschema.json"]) = true /\
+  t_has (raw (cs st)) (schema_path s ++ ["compat"]) = true /\
+  t_has (raw (cs st)) (linkgrp_path s) = true /\
+  t_has (raw (cs st)) (package_path (pkg_of E s)) = true.
+Proof. exact ch_schema_complete. Qed.
+Print Assumptions C06_schema_record_complete.
+
+Theorem C06_package_record_iff_used : forall E st, Sync E st -> forall p,
+  t_has (raw (cs st)) (package_path p) = true <->
+  exists q, In q (objs (raw (cs st))) /\ pkg_of E (sch q) = p.
+Proof. exact ch_package. Qed.
+Print Assumptions C06_package_record_iff_used.
+
+Theorem C06_no_empty_groups : forall E st, Sync E st ->
+  (t_has (raw (cs st)) links_segs = true -> objs (raw (cs st)) <> []) /\
+  (t_has (raw (cs st)) schemas_segs = true -> objs (raw (cs st)) <> []) /\
+  (t_has (raw (cs st)) packages_segs = true -> objs (raw (cs st)) <> []) /\
+  (forall s, t_has (raw (cs st)) (linkgrp_path s) = true ->
+             exists u, t_has (raw (cs st)) (link_path s u) = true).
+Proof. exact ch_dirs_nonempty. Qed.
+Print Assumptions C06_no_empty_groups.
+
+(** A metadata directory belongs to an existing node of the matching kind and is not empty. *)
+Theorem C06_meta_dir : forall E st, Sync E st -> forall d m x,
+  has_reserved d = false -> meta_seg m = true -> t_get (raw (cs st)) (d ++ [m]) = Some x ->
+  owner_ok (raw (cs st)) d m = true /\ has_children (raw (cs st)) (d ++ [m]) = true.
+Proof. exact ch_meta_dir. Qed.
+Print Assumptions C06_meta_dir.
+
+(** *** Non-vacuity and the pinned rules *)
+
+(** A reachable state that is in sync and carries metadata. *)
+Example C06_example :
+  Sync E0 (s_run E0 init_ss ops_chain) /\
+  t_has (raw (cs (s_run E0 init_ss ops_chain))) (link_path "c06.cc__0.1.0" "u1") = true.
+Proof. exact example_in_sync. Qed.
+
+(** A history with copy (with and without metadata), move, delete and reopen; the file part
+    of the four heavy kinds discharged by the verified checker. *)
+Example C06_example_heavy : Sync E0 (s_run E0 init_ss ops_heavy).
+Proof. exact example_heavy_in_sync. Qed.
+
+(** Pinned [_set_raw] (object stored before [register]): a failing schema export leaves an
+    object without link -- not in sync. *)
+Theorem C06_attach_pinned_refuted :
+  exists E st o, env_ok E = true /\ Sync E st /\ ~ Sync E (fst (s_step_pinned E st o)).
+Proof. exact attach_pinned_refuted. Qed.
+Print Assumptions C06_attach_pinned_refuted.
+
+(** Pinned [_update_parents_children(ref, None)] / [_unregister]: the incremental index
+    differs from the rebuilt one. *)
+Theorem C06_children_pinned_refuted :
+  exists E ops, env_ok E = true /\
+    ~ ix_same (load E (raw (cs (s_run_pinned E init_ss ops)))) (mem (s_run_pinned E init_ss ops)).
+Proof. exact children_pinned_refuted. Qed.
+Print Assumptions C06_children_pinned_refuted.
+
+Theorem C06_used_pinned_refuted :
+  exists E ops, env_ok E = true /\
+    ~ ix_same (load E (raw (cs (s_run_pinned E init_ss ops)))) (mem (s_run_pinned E init_ss ops)).
+Proof. exact used_pinned_refuted. Qed.
+Print Assumptions C06_used_pinned_refuted.
